@@ -3,9 +3,34 @@
 import MV.Codec
 import MV.Gen.SrcSlice
 import MV.Gen.SrcDur
+import MV.Gen.SrcMetric
 open MV MV.Codec
 
+def showBeats (x : List (Bool × Rat) × Bool) : String :=
+  toString (SExp.list [SExp.list (x.1.map (fun p => SExp.list [SExp.ofBool p.1, SExp.ofRat p.2])), SExp.ofBool x.2])
+def decGrid (arr sig tatum nb : SExp) : Option Rhythm.Metric :=
+  match arr.asInts?, sig, tatum.asRat?, nb.asInt? with
+  | some a, .list [x, y], some t, some n =>
+      match x.asInt?, y.asInt? with
+      | some x, some y => some { array := a, sig := (x, y), tatum := t, nbBars := n }
+      | _, _ => none
+  | _, _, _, _ => none
+
 def step : List SExp → String
+  | [.atom "beats", .atom w, tatum, arr] =>
+      match tatum.asRat?, arr.asInts? with
+      | some t, some a =>
+          let m : Rhythm.Metric := { array := [1, 0, 0, 0], sig := (4, 4), tatum := t, nbBars := 1 }
+          showRes showBeats (if w == "src" then Src.Metric_get_beat_durations m a else Rhythm.getBeatDurations t a)
+      | _, _ => "bad-args"
+  | [.atom "compl", .atom w, arr, sig, tatum, nb] =>
+      match decGrid arr sig tatum nb with
+      | some m => showRes (fun (r : Rhythm.Metric) => showInts r.array) (if w == "src" then Src.Metric_complementary m else m.complementary)
+      | none => "bad-args"
+  | [.atom "cshift", .atom w, arr, sig, tatum, nb, n] =>
+      match decGrid arr sig tatum nb, n.asInt? with
+      | some m, some n => showRes (fun (r : Rhythm.Metric) => showInts r.array) (if w == "src" then Src.Metric_circular_shift m n else m.circularShift n)
+      | _, _ => "bad-args"
   | [.atom "gmb", .atom w, m, a, b] =>
       match decMelody m, a.asRat?, b.asRat? with
       | some m, some a, some b =>
